@@ -93,7 +93,11 @@ def eval_roundtrip(case):
     rf = curve(case["curve"])
     M, tau = case["M"], case["tau"]
     t = window(tau, case["end"], case["n"])
+    if case.get("window") == "late-uniform":  # evenly spaced samples that start well after first production
+        t = np.linspace(0.05 * tau, case["end"] * tau, case["n"])
     y = M * np.asarray(rf(t / tau), dtype=float)
+    if case.get("zero"):  # a well that never produced: every sample is zero
+        y = np.zeros_like(y)
     if case.get("dtype") == "int":  # integer-typed time and production arrays (days, whole units)
         t = np.unique(np.round(t).astype(np.int64))
         y = np.round(M * np.asarray(rf(t / tau), dtype=float)).astype(np.int64)
@@ -109,9 +113,17 @@ def eval_roundtrip(case):
         lo_hi = ((f[0][0] * M, f[0][1] * M), (f[1][0] * tau, f[1][1] * tau))
         kw["bounds"] = Bounds(M=lo_hi[0], tau=lo_hi[1])
     fc = ForecasterOnePhase(rf, **kw)
+    if case.get("rebound"):
+        # the forecaster is built and used with OTHER bounds first; the configured ones are assigned to the public field
+        # afterwards - the next fit must honour the bounds that are current when it is called
+        first = {"default": {}, "wide": {"bounds": Bounds(M=(1e-3 * M, 1e3 * M), tau=(1e-3 * tau, 1e3 * tau))}}[case["rebound"]]
+        fc = ForecasterOnePhase(rf, **first)
     with warnings.catch_warnings():
         warnings.simplefilter("ignore")
         try:
+            if case.get("rebound"):
+                fc.fit(t, y)
+                fc.bounds = kw["bounds"]
             if case.get("history"):  # the same forecaster has fitted a very different well before
                 t0 = window(case["history"], 3.0, 60)
                 fc.fit(t0, 7.0 * M * np.asarray(rf(t0 / case["history"]), dtype=float))
@@ -126,6 +138,15 @@ def eval_roundtrip(case):
     else:
         if not (Mf >= 0 and tf >= 1e-10):
             viol.append(V("fit/inside-bounds", f"fitted M={Mf!r}, tau={tf!r} outside the default bounds", case=case))
+    if case.get("zero"):
+        # no production at all: the least-squares optimum is M = 0, clipped into the bounds.  Only demanded where the
+        # bounds give the problem a scale (with the default bounds any M at rounding level of the optimiser's unit
+        # step is "zero": containment, checked above, is all the statement says then)
+        want0 = lo_hi[0][0] if lo_hi is not None else 0.0
+        if lo_hi is not None and not abs(Mf - want0) <= 1e-6 * want0:
+            viol.append(V("fit/zero-production", f"all-zero production fits M={Mf!r}; the bounded optimum is {want0!r}", case=case,
+                          observed=Mf, expected=want0))
+        return {"violations": viol, "outcome": f"zero:{b}", "key": ("z", case["curve"], M, tau, b)}
     if b in ("default", "finite-inside", "half-inside") and case.get("dtype") != "int":
         if not (abs(Mf / M - 1) <= RT_TOL and abs(tf / tau - 1) <= RT_TOL):
             viol.append(V("round-trip", f"noise-free data from M={M}, tau={tau} over a window ending at {case['end']} tau "
@@ -153,7 +174,8 @@ def eval_roundtrip(case):
         if not abs(float(fc2.M_) - opt) <= 1e-6 * abs(opt):
             viol.append(V("fit-fixed-tau/optimum", f"with tau={tau_s} supplied, M={float(fc2.M_)!r}; bounded least-squares "
                           f"optimum {opt!r}", case=case, observed=float(fc2.M_), expected=opt, tol=1e-6))
-    return {"violations": viol[:3], "outcome": f"rt:{b}", "key": ("r", case["curve"], M, tau, case["end"], case["n"], b, case.get("history"), case.get("dtype"))}
+    return {"violations": viol[:3], "outcome": f"rt:{b}", "key": ("r", case["curve"], M, tau, case["end"], case["n"], b, case.get("history"), case.get("dtype"), case.get("window"),
+                                                                case.get("rebound"))}
 
 
 def eval_guess(case):
@@ -223,6 +245,15 @@ def cases(tier, seed):
     for c, b in itertools.product(curves, ["default", "fractional", "finite-truth-below", "fractional-outside"]):  # integer-typed data
         out.append({"kind": "roundtrip", "curve": c, "M": 5000.0, "tau": 365.25, "end": 3.0, "n": 200, "bounds": b,
                     "dtype": "int"})
+    for c, M, tau, e, b in itertools.product(curves, [1e-6, 300.0, 1e12], taus, ends, ["default", "finite-inside"]):
+        out.append({"kind": "roundtrip", "curve": c, "M": M, "tau": tau, "end": e, "n": 50, "bounds": b, "window": "late-uniform"})
+    for c, M, tau, b in itertools.product(curves, [1e-6, 300.0, 1e12], taus, ["default", "finite-inside", "finite-truth-below"]):
+        # (half-infinite bounds with a positive lower limit on M have no optimum for zero data: tau runs to infinity)
+        out.append({"kind": "roundtrip", "curve": c, "M": M, "tau": tau, "end": 3.0, "n": 50, "bounds": b, "zero": True})
+    for c, M, tau, b, rb in itertools.product(curves, [1e-6, 300.0, 1e12], [3.0, 1e4],
+                                              ["finite-inside", "finite-truth-below", "finite-truth-above", "half-truth-below"],
+                                              ["default", "wide"]):
+        out.append({"kind": "roundtrip", "curve": c, "M": M, "tau": tau, "end": 3.0, "n": 50, "bounds": b, "rebound": rb})
     for Mb, Tb in itertools.product([(0.0, np.inf), (2.0, 50.0), (5.0, np.inf), (-10.0, 10.0), (-40.0, -2.0), (0.0, 8.0)],
                                     [(1e-10, np.inf), (0.5, 4.0), (3.0, np.inf), (-1.0, 6.0)]):
         for gM, gT in itertools.product(["below", "inside", "above", "inf"], repeat=2):
